@@ -384,6 +384,8 @@ def known_match(entry, case, fail):
                 cap = min(0.5, cap * max(1.0, (fail.detail.get("max_scalar", 0.0) / m["noise_reference_mass"]) ** 4))
             if q.get("deviation/|a|", 0) > cap:
                 return False
+        if q.get("what") == "discontinuous" and "max_abs_d" in m and abs(q.get("d", 1.0)) > m["max_abs_d"]:
+            return False
         if q.get("what") == "not finite" and "nonfinite_only_at" in m:
             if any(d not in m["nonfinite_only_at"] for d, _ in q.get("at", [])) or len(q.get("at", [])) >= 4:
                 return False
